@@ -286,6 +286,20 @@ def check_n_writers(ctx, cfg):
                    "n += 1 only after a successful Cipher::%s" % kind if dominated else "n += 1 is not confined to the success path of the cipher call",
                    where(fn, s), cfg)
             continue
+        # a helper computing the next value: every return of the helper must be `argument + 1`
+        if val[0] == "call" and len(val[3]) == 1 and val[3][0][0] == "place" and F.fn(val[2] or val[1]) is not None:
+            g = F.fn(val[2] or val[1])
+            R2 = ctx.guards(cfg, g).R
+            rets = []
+            for b2 in g.blocks:
+                for st in b2["stmts"]:
+                    if st["k"] == "assign" and st["place"]["local"] == 0 and not st["place"]["proj"]:
+                        rets.append(strip_bb(R2.rvalue(st["rv"])))
+            bad = [r for r in rets if r != ("bin", "Add", ("arg", 1), ("const", 1))]
+            okh = bool(rets) and not bad
+            ctx.ob("n-writers", key, okh, "n := %s(n), which returns n + 1 on every path" % short(g.path) if okh
+                   else "n := %s(n) can return %s instead of n + 1 (the counter would not advance by exactly one)" % (short(g.path), show(bad[0], g) if bad else "?"), where(fn, s), cfg)
+            continue
         ctx.ob("n-writers", key, False, "unexpected write n := %s" % show(val, fn), where(fn, s), cfg)
     return len(ws)
 
